@@ -353,23 +353,39 @@ def r03e(R):
             'parameter no longer hides a global of the same name')
     pv = cs.methods['put_variable']
     cfg = A.cfg(pv)
+    from ..cfg import reachable_without_edges
     tests = [n for n in cfg.nodes if n.kind == 'cond'
              and isinstance(n.ast, ast.Compare)
-             and isinstance(n.ast.ops[0], ast.In)]
-    order = [norm(n.ast.comparators[0]).replace('self._top.', '') for n in tests]
+             and isinstance(n.ast.ops[0], (ast.In, ast.NotIn))]
     stores = {}
     for n in cfg.nodes:
         if n.kind == 'stmt' and isinstance(n.ast, ast.Assign) \
                 and isinstance(n.ast.targets[0], ast.Subscript):
             stores[norm(n.ast.targets[0].value).replace('self._top.', '')] = n
-    ok = order[:2] == ['params', 'globals'] and \
-        set(stores) >= {'params', 'globals', 'vars'}
-    # each membership test guards the store into the same container
-    for t in tests:
-        name = norm(t.ast.comparators[0]).replace('self._top.', '')
-        tgt = [m for m, lab in t.succs if lab is True]
-        if name in stores and stores[name] not in tgt:
-            ok = False
-    R.check(pv, 'assignment resolution order %s then vars' % order, ok,
+
+    def facts(store):
+        """membership facts that hold whenever `store` executes"""
+        out = set()
+        for t in tests:
+            name = norm(t.ast.comparators[0]).replace('self._top.', '')
+            member = isinstance(t.ast.ops[0], ast.In)     # label of 'is in'
+            if store.id not in reachable_without_edges(cfg, cfg.entry, {(t.id, member)}):
+                out.add((name, True))
+            if store.id not in reachable_without_edges(cfg, cfg.entry, {(t.id, not member)}):
+                out.add((name, False))
+        return out
+    want = {'params': {('params', True)},
+            'globals': {('params', False), ('globals', True)},
+            'vars': {('params', False), ('globals', False)}}
+    ok = set(stores) >= set(want)
+    order = []
+    for name, need in want.items():
+        if name in stores:
+            got = facts(stores[name])
+            order.append('%s when %s' % (name, ' and '.join(
+                '%s%s' % ('' if t else 'not in ', c) for c, t in sorted(got))))
+            if not need <= got:
+                ok = False
+    R.check(pv, 'assignment resolution: params, else globals, else a local', ok,
             'put_variable must try the parameters, then the globals, and only '
             'then create a local')
